@@ -48,8 +48,8 @@ def _run(ctx, ssig, spk, tx, idx, flags, f=None):
     ctx.check(ctx.and_(s1 == ssig, s2 == spk, len(s1) == len(ssig), len(s2) == len(spk)), 'scripts unchanged')
 
 
-def _symtx(ctx, nin, mutable):
-    f = K.mk_tx_fields(ctx, dict(sig=[0] * nin, spk=[1], wit=None), pre='tx')
+def _symtx(ctx, nin, mutable, nout=1):
+    f = K.mk_tx_fields(ctx, dict(sig=[0] * nin, spk=[1] * nout, wit=None), pre='tx')
     return K.build_tx(ctx, f, mutable), f
 
 
@@ -104,7 +104,7 @@ def h_sigops(ctx, shape, nin, idx, mutable):
     push = lambda d: RS.push_encode(ctx, d)
     sig = ctx.bytes('sig', shape['siglen'])
     pk = ctx.bytes('pk', 33)
-    tx, f = _symtx(ctx, nin, mutable)
+    tx, f = _symtx(ctx, nin, mutable, shape.get('nout', 1))
     if shape['kind'] == 'checksig':
         _run(ctx, push(sig), push(pk) + B(bytes([shape['op']])), tx, idx, (), f)
     else:
@@ -151,6 +151,11 @@ def instances(tier):
         for sl in (0, 1, 9):
             for nin, idx in ((1, 0), (1, 1), (2, 1), (2, 3)):
                 out.append(dict(h='sigops', p=dict(shape=dict(kind='checksig', op=op, siglen=sl), nin=nin, idx=idx, mutable=bool(sl % 2))))
+    # several outputs and an input index >= 1: the SIGHASH_SINGLE / NONE pruning paths of the signature hash (hash type = last, symbolic, signature byte)
+    for mutable in (True, False):
+        out.append(dict(h='sigops', p=dict(shape=dict(kind='checksig', op=0xac, siglen=9, nout=3), nin=2, idx=1, mutable=mutable)))
+        out.append(dict(h='sigops', p=dict(shape=dict(kind='checksig', op=0xad, siglen=2, nout=2), nin=3, idx=2, mutable=mutable)))
+        out.append(dict(h='sigops', p=dict(shape=dict(kind='multisig', op=0xae, siglen=9, nout=3), nin=2, idx=1, mutable=mutable)))
     for op in (0xae, 0xaf):
         for nin, idx in ((1, 0), (2, 2)):
             out.append(dict(h='sigops', p=dict(shape=dict(kind='multisig', op=op, siglen=9), nin=nin, idx=idx, mutable=False)))
